@@ -167,6 +167,17 @@ pub const CORPUS: &[(&str, &str)] = &[
     ("partial-names", r#"(module
         (func $anon (export "anon") (param i32) (local $only_local i32) (local.set $only_local (i32.const 7)))
         (func $named (export "n") (param $p i32) (drop (local.get $p)) (i32.const 8) (drop) (i32.const 9) (drop)))"#),
+    // modules with names of ONE kind only (whether a name section is written at all must not depend on which kind that is)
+    ("only-the-module-name", r#"(module $lonely (func (export "f")))"#),
+    ("only-a-function-name", r#"(module (func $f (export "f")))"#),
+    ("only-a-parameter-name", r#"(module (func (export "f") (param $p i32) (drop (local.get $p))))"#),
+    ("only-a-local-name", r#"(module (func (export "f") (local $l i32) (local.set $l (i32.const 1))))"#),
+    ("only-a-global-name", r#"(module (global $g (export "g") i32 (i32.const 1)))"#),
+    ("only-a-memory-name", r#"(module (memory $m (export "m") 1))"#),
+    ("only-a-table-name", r#"(module (table $t (export "t") 1 funcref))"#),
+    ("only-a-data-name", r#"(module (memory (export "m") 1) (data $d (i32.const 0) "x"))"#),
+    ("only-an-element-name", r#"(module (table (export "t") 1 funcref) (func) (elem $e (i32.const 0) func 0))"#),
+    ("only-an-imported-function-name", r#"(module (import "e" "f" (func $imp)) (export "f" (func $imp)))"#),
 ];
 
 pub fn names(args: &[String]) -> Result<Value> {
